@@ -133,7 +133,7 @@ def _out_push(e):
 def arm_events(arm):
     """ordered events of one allocation arm"""
     ev = {"fresh": [], "stores": [], "pushes": [], "release": [], "bind": [], "rebind": [], "asserts": [], "other": [], "tail": None}
-    stmts = A.inline_simple_lets(A.stmts_of(arm["body"]))
+    stmts = A.inline_simple_lets(A.stmts_of(arm["body"]), pure_calls=("op",))  # `op` is the RegOp constructor passed in
     for idx, s in enumerate(stmts):
         if s.get("k") == "Let":
             n = A.binding_name(s["pat"])
